@@ -182,6 +182,20 @@ func Run(cs Case, c *vrt.Ctx) {
 			}
 		}
 	}
+	// the element with its three element arrays held as Go arrays ([3]any, reached by
+	// reflection): still total, and the same truth value unless whole containers are compared
+	if ain, changed := goArrays(elem); changed && !cs.Gen {
+		c.Class("go-arrays")
+		var agot bool
+		if pv, stack := vrt.Catch(func() { agot = s.Match(ain) }); pv != nil {
+			c.Fail("panic", "Script.Match(Go arrays)", fmt.Sprintf("%v at %s; %s", pv, stack, desc), "op:"+cs.Eq.Op)
+		} else if agot != got && fixed && !res.Feat["compares-container"] && !res.Feat["operand-multi"] {
+			c.Class("go-arrays-differ(reflection: C11)")
+		}
+		if pv, stack := vrt.Catch(func() { _ = jp.R().F(cs.Eq.Build()).Get([]any{ain}) }); pv != nil {
+			c.Fail("panic", "Get(filter, Go arrays)", fmt.Sprintf("%v at %s; %s", pv, stack, desc), "op:"+cs.Eq.Op)
+		}
+	}
 	// determinism
 	if again := s.Match(in); again != got {
 		c.Fail("nondeterministic", "Script.Match", fmt.Sprintf("%s: %v then %v", desc, got, again))
@@ -215,6 +229,34 @@ func Run(cs Case, c *vrt.Ctx) {
 			}
 		}
 	}
+}
+
+// goArrays returns the tree with every three element array held as a [3]any.
+func goArrays(v any) (any, bool) {
+	switch tv := v.(type) {
+	case []any:
+		changed := false
+		out := make([]any, len(tv))
+		for i, e := range tv {
+			var ch bool
+			out[i], ch = goArrays(e)
+			changed = changed || ch
+		}
+		if len(out) == 3 {
+			return [3]any{out[0], out[1], out[2]}, true
+		}
+		return out, changed
+	case map[string]any:
+		changed := false
+		out := make(map[string]any, len(tv))
+		for k, e := range tv {
+			var ch bool
+			out[k], ch = goArrays(e)
+			changed = changed || ch
+		}
+		return out, changed
+	}
+	return v, false
 }
 
 func law(c *vrt.Ctx, e *jpx.Eq, in any, want bool, name, desc string) {
